@@ -530,6 +530,7 @@ func C19(run *core.Run) {
 		run.Violation(key, fmt.Sprintf("%s: minify %s: %s", c.Name, strings.Join(c.Inv.Args(), " "), core.Trunc(strings.Join(detail, "; "), 500)),
 			c19Witness{Case: c.Name, Args: c.Inv.Args(), Tree: c.Files, Stdin: st, Diff: diff, Detail: detail, Tasks: exp.Tasks, Stderr: core.Trunc(string(stderr), 600)})
 	})
+	c19WriteFaults(run, scratch)
 	run.Finish("final directory == model(initial directory, invocation) byte for byte (files, symlinks, directories; no leftover .bak), exit status zero iff the model has no failing input, stdout == model output when stdout is the destination",
 		[]string{
 			"the model is my reading of the README/usage text and of the property statement; the bytes come from library calls with the registry the README documents for the command",
@@ -555,4 +556,69 @@ func c19Signature(detail []string) string {
 	}
 	sort.Strings(parts)
 	return "c19:" + strings.Join(parts, ",")
+}
+
+// c19WriteFaults: the destination cannot be written (write(2) fails, injected by strace on the tree's files
+// only).  A file that was being minified onto itself must be back with its original bytes and without a
+// leftover backup; files that are only read are untouched.
+func c19WriteFaults(run *core.Run, scratch string) {
+	if _, err := exec.LookPath("strace"); err != nil {
+		run.Count("write_fault_runs_skipped_no_strace")
+		return
+	}
+	type fc struct {
+		name  string
+		files []treeFile
+		args  []string
+	}
+	js, css := cliSample["js"], cliSample["css"]
+	cases := []fc{
+		{"in-place", []treeFile{{Path: "a.js", Data: js}}, []string{"-o", "a.js", "a.js"}},
+		{"in-place-dir", []treeFile{{Path: "src/a.js", Data: js}, {Path: "src/b.css", Data: css}}, []string{"-r", "-o", "src/", "src/"}},
+		{"in-place-alias", []treeFile{{Path: "a.js", Data: js}, {Path: "l.js", Symlink: "a.js"}}, []string{"-o", "a.js", "l.js"}},
+		{"bundle-onto-input", []treeFile{{Path: "a.js", Data: js}, {Path: "b.js", Data: "let z = 3 ;"}}, []string{"-b", "-o", "a.js", "a.js", "b.js"}},
+		{"in-place-large", []treeFile{{Path: "big.css", Data: sampleSized("css", 200000)}}, []string{"-o", "big.css", "big.css"}},
+	}
+	for ci, c := range cases {
+		for _, errno := range []string{"ENOSPC", "EIO"} {
+			root := filepath.Join(scratch, fmt.Sprintf("wf%d%s", ci, errno))
+			if err := materialize(root, c.files); err != nil {
+				run.Inconclusive()
+				continue
+			}
+			before, _ := diskSnapshot(root)
+			logPath := filepath.Join(scratch, fmt.Sprintf("wf%d%s.strace", ci, errno))
+			res := runStraceP(root, logPath, []string{"write:error=" + errno + ":when=1+"}, cliCase{Name: c.name, Files: c.files, Args: c.args}, nil)
+			if res.err != nil {
+				run.Inconclusive()
+				run.Count("write_fault_run_failed")
+				continue
+			}
+			b, _ := os.ReadFile(logPath)
+			if !bytes.Contains(b, []byte("(INJECTED)")) {
+				run.Inconclusive()
+				run.Count("write_fault_not_injected")
+				continue
+			}
+			run.Eval()
+			run.Count("write_fault_runs:" + errno)
+			after, _ := diskSnapshot(root)
+			// every write to the tree failed: nothing may have changed
+			diff := snapshotDiff(before, after)
+			os.RemoveAll(root)
+			os.Remove(logPath)
+			if len(diff) == 0 {
+				run.NonTrivial([]byte("write-fault"), []byte(c.name), []byte(errno))
+				continue
+			}
+			var detail []string
+			for _, d := range diff {
+				k := d[1:]
+				detail = append(detail, c19Describe(k, before[k], after[k]))
+			}
+			key := core.Key("c19", []byte("write-fault|"+c.name+"|"+errno))
+			run.Violation(key, fmt.Sprintf("write-fault %s: minify %s with every write to the tree failing (%s): %s", c.name, strings.Join(c.args, " "), errno, core.Trunc(strings.Join(detail, "; "), 400)),
+				c19Witness{Case: "write-fault-" + c.name, Args: c.args, Tree: c.files, Diff: diff, Detail: detail, Stderr: core.Trunc(string(res.stderr), 400)})
+		}
+	}
 }
